@@ -31,6 +31,48 @@ CLAIMS = {
         note=TRUST + "Thread-interleaving and cross-process claims follow from purity + determinism by a paper "
                      "argument (DESIGN §4.1).",
         design="§4.1, §5 C02"),
+    "C08": dict(
+        technique="contract-based deductive verification: context-propagation obligations (O-CTX) at every nested "
+                  "render call site, SqlContext.copy functional contract, z3",
+        level="proof",
+        text="For every render function and concrete class, each nested render receives the dialect part of the "
+             "context (quote chars, dialect, as_keyword, parameterizer, alias policies) unchanged - or the query "
+             "class default for an outermost call (ctx/dialect); SqlContext.copy equals self except at the given "
+             "keys (ctx/copy, 13 cases); dialects that forbid GROUP BY alias force the flag whatever context they get "
+             "(ctx/convention); no package object is formatted through str() inside a render (ctx/str-bypass).",
+        note=TRUST + "Wrapper choice per position (MySQL backslash rule) is decided under C05. Set-operand wrapping "
+                     "is a builder attribute, not a context component, and is not covered.",
+        design="§4.4, §5 C08"),
+    "C10": dict(
+        technique="contract-based deductive verification: non-interference obligations on the position flags passed "
+                  "to nested renders (dependency on incoming position atoms), position table, z3",
+        level="proof",
+        text="In every statement builder (all dialect classes, set operations) no position flag passed to any nested "
+             "render depends on the embedding position of the statement (nonint/flags); embedding sites pass the "
+             "flags the position table prescribes (embed/site).",
+        note=TRUST + "Position table contracts/spec/positions.py transcribes the property. Placeholder renumbering "
+                     "is C04.",
+        design="§4.4, §5 C10"),
+    "C11": dict(
+        technique="contract-based deductive verification: qualification rule NS(self) written as a specification "
+                  "function evaluated by the same symbolic engine; z3 equivalence per nested render site",
+        level="other",
+        text="Every clause of every statement builder is rendered with with_namespace == NS(self) (bare positions: "
+             "False) (ns/decision); Field/Star print the qualifier iff table and (with_namespace or table.alias) and "
+             "the qualifier is the quoted alias-else-name (ns/field, ns/star, ns/table-name); where()/prewhere() never "
+             "clear the foreign-table flag (ns/foreign-flag). Refuted obligations are listed as known findings.",
+        note=TRUST + "Known findings: PostgreSQL RETURNING qualification (pinned by tests), MySQL UPDATE tail clauses.",
+        design="§5 C11"),
+    "C12": dict(
+        technique="contract-based deductive verification: alias obligations per term class (suffix analysis of the "
+                  "result shape under z3 path conditions) and per nested render site (position table)",
+        level="other",
+        text="Every operand site inside expression nodes and every clause site passes with_alias as the position "
+             "table prescribes (alias/site); each Term class prints its alias as a suffix exactly when with_alias "
+             "(alias/class-on, alias/class-off). Refuted class obligations (classes that always/never print the "
+             "alias, pinned by existing tests) are known findings.",
+        note=TRUST + "GROUP BY / ORDER BY alias references (alias/ref) are not yet under contract.",
+        design="§5 C12"),
 }
 
 PENDING = "machinery for this property not completed yet (build in progress, see DESIGN.md §10)"
